@@ -738,6 +738,9 @@ func c17RestoreWith(c *fw.Ctx, id string, src []byte, ov map[string]string) {
 			snap := refl.DeepCopy(df)
 			fr := &failingPkgResolver{inner: guess.New(), failAt: k}
 			r := c17Restorer(fr, ov)
+			// the caller's own file set, used again for the retry: a failed restore leaves nothing in it
+			shared := token.NewFileSet()
+			r.Fset = shared
 			var buf bytes.Buffer
 			var err error
 			if sig, detail := fw.Try(func() { err = r.Fprint(&buf, df) }); sig != "" {
@@ -745,6 +748,9 @@ func c17RestoreWith(c *fw.Ctx, id string, src []byte, ov map[string]string) {
 				return
 			}
 			c17Verdict(c, cid, "restore", err, false, buf.Len(), string(src))
+			if n, b := countFiles(shared), shared.Base(); n != 0 || b != 1 {
+				c.Violate("output-on-failure", "output-on-failure:restore:file-set", fmt.Sprintf("%s: the failed restore left %d file(s) in the caller's file set and moved its base to %d: a retry into that file set reports other positions than a failure-free run", cid, n, b), string(src))
+			}
 			if dd := refl.DeepEqualDst(df, snap); dd != "" {
 				c.Violate("input-modified", "input-modified:restore", cid+": the dst tree changed: "+dd, string(src))
 			}
